@@ -49,7 +49,8 @@ def case_st(draw):
     n = draw(st.integers(1, 8))
     return {"nodes": draw(st.lists(node_st(n), min_size=n, max_size=n)), "start": draw(st.integers(0, n - 1)),
             "maxr": draw(st.integers(0, 6)), "follow": draw(st.integers(0, 4)) > 0,
-            "badhost": draw(st.sampled_from([None, None, "a", "b", "c"]))}
+            "badhost": draw(st.sampled_from([None, None, "a", "b", "c"])),
+            "bad_after": draw(st.sampled_from([0, 0, 1, 2]))}  # the bad host presents its pinned certificate on the first k connections
 
 
 def enum_small(tier):
@@ -60,8 +61,8 @@ def enum_small(tier):
         for nodes in itertools.product(kinds, repeat=n):
             for maxr in range(0, 4):
                 for follow in (True, False):
-                    for bad in (None, "b"):
-                        yield {"nodes": list(nodes), "start": 0, "maxr": maxr, "follow": follow, "badhost": bad}
+                    for bad, after in ((None, 0), ("b", 0), ("a", 1)):
+                        yield {"nodes": list(nodes), "start": 0, "maxr": maxr, "follow": follow, "badhost": bad, "bad_after": after}
 
 
 def walk(case):
@@ -115,6 +116,8 @@ def run_case(case: dict):
 
             peers[h] = memnet.ScriptedPeer(certs.get("ec-b" if h == case["badhost"] else "ec-a"),
                                            [("wait_request", 1.0), ("respond", respond), ("close",)])
+            if h == case["badhost"] and case.get("bad_after"):
+                peers[h].cert_sequence = [certs.get("ec-a")] * case["bad_after"] + [certs.get("ec-b")]
             net.add(h, 1965, peers[h])
         db = TOFUDatabase(dbpath)
         for h in HOSTS:
@@ -151,7 +154,7 @@ def run_case(case: dict):
     if not case["follow"]:
         if len(conns) != 1:
             return viol("follow-off-made-several-connections", f"{conns}", **info)
-        if bad == start_host:
+        if bad == start_host and not case.get("bad_after"):
             if res[0] != "changed":
                 return viol("pin-not-verified", f"{res}", **info)
             return ok(**info)
@@ -168,8 +171,9 @@ def run_case(case: dict):
     info["ref"] = ref[0] + (":" + ref[1] if ref[0] == "error" else "")
     path = ref[2]
     hosts_on_path = [HOSTS[i % 3] for i in path]
-    if bad in hosts_on_path:
-        i = hosts_on_path.index(bad)
+    visits = [k for k, h in enumerate(hosts_on_path) if h == bad]
+    if bad is not None and len(visits) > case.get("bad_after", 0):
+        i = visits[case.get("bad_after", 0)]
         if res[0] != "changed" or res[1] != bad:
             return viol("pin-not-verified-on-hop", f"hop {i} ({bad}) presents a changed certificate; result {res}", **info)
         if len(conns) > i + 1:
